@@ -8,7 +8,10 @@ EXPLANATION = ("For every operation of the shape corpus the EMITTED endpoint met
                "OpenAPI document by an oracle written from the statement: exactly one transport.request call on every exit that follows it; "
                "method literal; URL = base_url + path with every {p} replaced by the serialised argument; query and header maps = exactly the "
                "entries {original name: serialised argument} of the supplied arguments (each optional argument symbolic: every subset at once); "
-               "body keyword by content type. Proved for all argument values; bounded in the set of spec shapes (stated).")
+               "body keyword by content type. Proved for all argument values; bounded in the set of spec shapes (stated). Independently of shapes, the "
+               "GENERATOR loops that emit those maps carry statement contracts (one arbitrary parameter): exactly one dict entry is written per query / "
+               "header / cookie parameter, it contains the wire-name literal python_string_literal(original_name) and the serialised argument of that "
+               "parameter — for every specification.")
 TRUSTED = ["DataclassSerializer.serialize is an uninterpreted function of its argument (its laws are C16); serialize(None) is None",
            "the oracle reads parameters/body straight from the raw document (no $ref'd parameters in the corpus)",
            "argument naming: parameters are matched to arguments through a reference snake-case derivation (naming itself is C20)"]
@@ -46,5 +49,5 @@ MANIFEST = {
             "None-guard, keys an entry by the sanitised name, or sends a body under the wrong keyword fails a named obligation of a named shape.",
     "note": "Bounded in spec shapes (the corpus is listed in evidence). serialize and httpx are not under contract here. Multi-content-type "
             "dispatch methods whose implementation is outside the engine's subset are listed as skipped.",
-    "technique": "contract-based deductive verification of emitted code (pyvc + z3) against an oracle contract, over an enumerated shape corpus",
+    "technique": "contract-based deductive verification of emitted code (pyvc + z3) against an oracle contract over an enumerated shape corpus + statement contracts on the generator's parameter loops",
 }
